@@ -30,7 +30,9 @@ pub fn dump(r: &Reasoner) -> BTreeSet<Fact> {
 #[derive(Serialize, Deserialize, Clone, Debug)]
 pub struct Perturb { pub strategy: u8, pub pool: usize, pub rayon_seed: u64, pub order_seed: u64 }
 #[derive(Serialize, Deserialize, Clone, Debug)]
-pub struct DlCase { pub hash_seed: u64, pub facts: Vec<Fact>, pub rules: Vec<dm::Rule>, pub runs: Vec<Perturb> }
+pub struct DlCase { pub hash_seed: u64, pub facts: Vec<Fact>, pub rules: Vec<dm::Rule>, pub runs: Vec<Perturb>,
+    /// rules with unsafe negation that the client offers through try_add_rule and that must be refused and take no part
+    #[serde(default)] pub rejected: Vec<dm::Rule> }
 pub const STRATEGIES: [&str; 4] = ["naive", "semi-naive", "semi-naive-parallel", "provenance-boolean"];
 
 pub struct C05;
@@ -106,7 +108,7 @@ pub fn gen_program(r: &mut Rng, cfg: &mut Rng, big: bool) -> (Vec<Fact>, Vec<dm:
 impl Prop for C05 {
     type Case = DlCase;
     fn id(&self) -> &'static str { "C05" }
-    fn expected_counters(&self) -> Vec<&'static str> { vec!["fault.fact_and_rule_order_permuted", "fault.pool_split_into_several_jobs", "fault.jobs_run_out_of_index_order", "probe.nested_parallel_call", "probe.program_derives_facts", "probe.rule_with_3plus_premises", "probe.over_1000_facts_hash_join_chunks", "probe.negative_stratum", "probe.derivation_deeper_than_128_rounds"] }
+    fn expected_counters(&self) -> Vec<&'static str> { vec!["fault.fact_and_rule_order_permuted", "fault.pool_split_into_several_jobs", "fault.jobs_run_out_of_index_order", "probe.nested_parallel_call", "probe.program_derives_facts", "probe.rule_with_3plus_premises", "probe.over_1000_facts_hash_join_chunks", "probe.negative_stratum", "probe.derivation_deeper_than_128_rounds", "fault.unsafe_rule_refused"] }
     fn budget(&self, tier: Tier) -> Budget { match tier { Tier::Quick => Budget { runs: 4000, wall_s: 60, recheck: 30 }, Tier::Thorough => Budget { runs: 150_000, wall_s: 1000, recheck: 100 } } }
     fn hash_seed(&self, c: &DlCase) -> u64 { c.hash_seed }
     fn gen(&self, seed: u64, _i: u64, tier: Tier) -> DlCase {
@@ -130,7 +132,8 @@ impl Prop for C05 {
             runs.push(Perturb { strategy: s, pool: 1, rayon_seed: 0, order_seed: 0 });
             for _ in 1..(if big { if s == 2 { 1 } else { 2 } } else { per }) { runs.push(Perturb { strategy: s, pool: *pr.pick(&[1, 2, 3, 4, 8, 16, 16, 70, 200]), rayon_seed: pr.next(), order_seed: pr.next() }); }
         }
-        DlCase { hash_seed: Rng::sub(seed, "hash").next(), facts, rules, runs }
+        let rejected = if !facts.is_empty() && cfg.chance(1, 4) { let f = r.pick(&facts).clone(); vec![dm::Rule { prem: vec![("?x".into(), f.1.clone(), "?y".into())], neg: vec![("?y".into(), f.1.clone(), "?unbound".into())], conc: vec![("?y".into(), f.1.clone(), "?x".into())], filt: vec![] }] } else { vec![] };
+        DlCase { hash_seed: Rng::sub(seed, "hash").next(), facts, rules, runs, rejected }
     }
     fn exec(&self, c: &DlCase, ctx: &mut Ctx) -> Option<Violation> {
         if c.rules.iter().any(|r| !dm::is_safe(r)) { ctx.hit("unsafe_program_skipped"); return None; }
@@ -147,6 +150,8 @@ impl Prop for C05 {
             if p.order_seed != 0 { let mut o = Rng::new(p.order_seed); o.shuffle(&mut facts); o.shuffle(&mut rules); ctx.hit("fault.fact_and_rule_order_permuted"); }
             rayon::sim_configure(p.rayon_seed, p.pool);
             let mut re = build(&facts, &rules);
+            // a rejected rule (a failed operation of the client) must leave the program as it was
+            for rj in &c.rejected { let rule = to_rule(rj, &re); match re.try_add_rule(rule) { Err(_) => ctx.hit("fault.unsafe_rule_refused"), Ok(()) => { rayon::sim_reset(); return Some(Violation::new("unsafe-rule-accepted", format!("try_add_rule accepted a rule whose negative premise uses a variable no positive premise binds: {:?}", rj))); } } }
             let n1 = run_strategy(&mut re, p.strategy);
             let got = dump(&re);
             let st = rayon::sim_stats();
@@ -177,6 +182,7 @@ impl Prop for C05 {
     fn shrink(&self, c: &DlCase) -> Vec<DlCase> {
         let mut out = vec![];
         for rs in shrink_vec(&c.runs) { if !rs.is_empty() { out.push(DlCase { runs: rs, ..c.clone() }); } }
+        if !c.rejected.is_empty() { out.push(DlCase { rejected: vec![], ..c.clone() }); }
         for fs in shrink_vec(&c.facts) { out.push(DlCase { facts: fs, ..c.clone() }); }
         for rs in shrink_vec(&c.rules) { if !rs.is_empty() { out.push(DlCase { rules: rs, ..c.clone() }); } }
         for (i, r) in c.rules.iter().enumerate() {
